@@ -61,3 +61,109 @@ def _(u):
 @unit("beam.make_beam_step.w3", file=DEC, func="BeamSearch._make_beam_step", props=("C13", "C12"))
 def _(u):
     _beam_step(u, 3)
+
+
+# ---------------------------------------------------------------------------------------------
+# _backtrack: the sequence returned for a final beam is that beam's own history (parent chain), inside its instance
+# ---------------------------------------------------------------------------------------------
+def _backtrack(u, L):
+    """L = number of decoding steps (a Python list length: concrete, stated bound); batch size and beam width symbolic."""
+    B, W = u.dims("B W")
+    R = W * B
+    acts = [u.tensor(f"actions_step{k}", (R,), "i") for k in range(L)]
+    lps = [u.tensor(f"logprobs_step{k}", (R,), "f") for k in range(L)]
+    path = [u.tensor(f"beam_path_step{k}", (R,), "i") for k in range(L)]
+    for k in range(L):
+        u.requires(u.forall((R,), lambda r, k=k: AND(path[k].at(r) >= 0, path[k].at(r) < W)))   # established by _make_beam_step (beam.*.parent-in-range)
+    strat = u.obj(DEC, "BeamSearch", beam_width=W, actions=acts, logprobs=lps, beam_path=path)
+    a_out, l_out = u.run(DEC, "BeamSearch._backtrack", selfobj=strat)
+    same_tensor(u, "backtrack.actions.shape", a_out, (R, L), lambda r, k: a_out.at(r, k), tags=("C13",))
+    same_tensor(u, "backtrack.logprobs.shape", l_out, (R, L), lambda r, k: l_out.at(r, k), tags=("C13",))
+    b = u.idx((B,), "b")
+    w = u.idx((W,), "w")
+    r = w * B + b
+    # ancestor rows of final beam r: anc[L-1] = r; anc[k] = parent_{k+1}[anc[k+1]] * B + b  (the row that beam occupied at step k)
+    anc = [None] * L
+    anc[L - 1] = r
+    for k in range(L - 2, -1, -1):
+        anc[k] = path[k + 1].at(anc[k + 1]) * B + b
+    for k in range(L):
+        u.prove(f"backtrack.step{k}.ancestor-row-in-own-instance", AND(anc[k] >= 0, anc[k] < R, anc[k] % B == b), tags=("C13", "C12"))
+        u.prove(f"backtrack.step{k}.action-of-ancestor", a_out.at(r, k) == acts[k].at(anc[k]), tags=("C13",))
+        u.prove(f"backtrack.step{k}.logprob-of-ancestor", l_out.at(r, k) == lps[k].at(anc[k]), tags=("C13", "C11"))
+    u.canary("backtrack.no-reindexing", a_out.at(r, 0) == acts[0].at(r))
+
+
+@unit("beam.backtrack.L3", file=DEC, func="BeamSearch._backtrack", props=("C13", "C12"))
+def _(u):
+    _backtrack(u, 3)
+
+
+@unit("beam.backtrack.L4", file=DEC, func="BeamSearch._backtrack", props=("C13", "C12"))
+def _(u):
+    _backtrack(u, 4)
+
+
+def _select_best_beam(u, W):
+    B, T = u.dims("B T")
+    R = W * B
+    lp = u.tensor("logprobs", (R, T), "f")
+    act = u.tensor("actions", (R, T), "i")
+    rew = u.tensor("rewards", (R,), "f")
+    from tvc.td import SymTD
+
+    td = SymTD({"key": u.tensor("tdval", (R, 2), "f")}, (R,))
+    env = u.ns(get_reward=lambda td_, a_: rew)
+    strat = u.obj(DEC, "BeamSearch", beam_width=W)
+    lo, ao, tdo, _ = u.run(DEC, "BeamSearch._select_best_beam", lp, act, td, env, selfobj=strat, record=False)
+    b = u.idx((B,), "b")
+    t = u.idx((T,), "t")
+    same_tensor(u, "bestbeam.actions.shape", ao, (B, T), lambda bb, tt: ao.at(bb, tt), tags=("C13",))
+    # the returned beam is one of instance b's own W beams, maximal in reward among them; actions, log-probs and state rows are its
+    cases = []
+    for w in range(W):
+        row = w * B + b
+        cases.append(AND(ao.at(b, t) == act.at(row, t), lo.at(b, t) == lp.at(row, t), tdo["key"].at(b, 1) == td["key"].at(row, 1),
+                         *[rew.at(row) >= rew.at(w2 * B + b) for w2 in range(W)]))
+    u.prove("bestbeam.own-best-beam", OR(*cases), tags=("C13", "C12"))
+    u.canary("bestbeam.first-beam", ao.at(b, t) == act.at(b, t))
+
+
+@unit("beam.select_best_beam.w2", file=DEC, func="BeamSearch._select_best_beam", props=("C13", "C12"))
+def _(u):
+    _select_best_beam(u, 2)
+
+
+@unit("beam.select_best_beam.w3", file=DEC, func="BeamSearch._select_best_beam", props=("C13", "C12"))
+def _(u):
+    _select_best_beam(u, 3)
+
+
+@unit("beam.step.reindex.w2", file=DEC, func="BeamSearch._step", props=("C13", "C12"))
+def _(u):
+    # BeamSearch._step hands back, for kept beam r, the state / step log-probs / mask of ITS PARENT row (same instance)
+    from tvc.td import SymTD
+
+    W = 2
+    B, N = u.dims("B N")
+    R = W * B
+    lp = u.tensor("logprobs", (R, N), "f")
+    mask = u.tensor("mask", (R, N), "b")
+    par = u.tensor("parent_beam_logprobs", (R, 1), "f")
+    td = SymTD({"state": u.tensor("state", (R, 3), "f"), "action_mask": mask}, (R,))
+    strat = u.obj(DEC, "BeamSearch", beam_width=W, parent_beam_logprobs=par, beam_path=[])
+    u.inline((DEC, "BeamSearch._make_beam_step"))
+    lo, sel, tdo = u.run(DEC, "BeamSearch._step", lp, mask, td, selfobj=strat, asserts="record", record=False)
+    path = strat._attrs["beam_path"]
+    b = u.idx((B,), "b")
+    n = u.idx((N,), "n")
+    for w in range(W):
+        r = w * B + b
+        prow = path[-1].at(r) * B + b
+        u.prove(f"beamstep{w}.parent-row-in-own-instance", AND(path[-1].at(r) >= 0, path[-1].at(r) < W), tags=("C13", "C12"))
+        u.prove(f"beamstep{w}.state-of-parent", tdo["state"].at(r, 1) == td["state"].at(prow, 1), tags=("C13", "C12"))
+        u.prove(f"beamstep{w}.logprobs-of-parent", lo.at(r, n) == lp.at(prow, n), tags=("C13", "C11"))
+        u.prove(f"beamstep{w}.mask-of-parent", tdo["action_mask"].at(r, n) == mask.at(prow, n), tags=("C13",))
+        # the recorded assert: the chosen node is admitted by the parent's mask
+        u.prove(f"beamstep{w}.selected-admitted-by-parent-mask", mask.at(prow, sel.at(r)), tags=("C13", "C10"))
+    u.canary("beamstep.state-not-reindexed", tdo["state"].at(b, 1) == td["state"].at(b, 1))
